@@ -71,7 +71,7 @@ CLAIMED = {
     engine="driver-ai"),
  "C06": dict(
     category="proof",
-    text="Proof of the injectivity skeleton of the formatted message: at the mu site of every external entry point (pure sign/verify; hash sign/verify x SHA-256, SHA-512, SHAKE128; ctx 0..255; message arbitrary) the absorb list is tr | D | L | ctx | tail with D the constant 00 (pure) / 01 (pre-hash), L the exact linear form len(ctx) placed before the whole context, pure tail = whole message, hash tail = FIPS OID (11 constant bytes, pairwise distinct) followed by a digest of the table length produced by exactly one hasher of the right kind over the whole message; sign and verify build identical lists. Prefix-free header + length-delimited context + fixed-length OID => distinct (mode, ctx, M/(PH,digest)) give distinct M'.",
+    text="Proof of the injectivity skeleton of the formatted message: at the mu site of every external entry point (pure sign/verify; hash sign/verify x SHA-256, SHA-512, SHAKE128; context of ANY length, so that 'L = len(ctx) in [0,255]' also establishes that no longer context reaches the hash; message arbitrary) the absorb list is tr | D | L | ctx | tail with D the constant 00 (pure) / 01 (pre-hash), L the exact linear form len(ctx) placed before the whole context, pure tail = whole message, hash tail = FIPS OID (11 constant bytes, pairwise distinct) followed by a digest of the table length produced by exactly one hasher of the right kind over the whole message; sign and verify build identical lists. Prefix-free header + length-delimited context + fixed-length OID => distinct (mode, ctx, M/(PH,digest)) give distinct M'.",
     design_ref="DESIGN.md §4 C06",
     note="Trusted: collision resistance of SHAKE256 / SHA-2 / SHAKE128 (a different M' gives a different mu), hash model (update absorbs exactly its argument), abstract interpreter soundness. That verification then fails is the hash argument, not analysed.",
     technique="abstract interpretation with symbolic hash absorb lists (value numbering of absorbed items) compared against the FIPS 204 layout",
